@@ -217,6 +217,11 @@ def run_check(case) -> Outcome:
                         stack.append(cm)
                     elif step == "leave" and stack:
                         await stack.pop().__aexit__(None, None, None)
+                    elif step == "leave_err" and stack:
+                        # the block is left with an ordinary exception of its body (handled by the code around it): this
+                        # neither makes nor takes back a cancellation request
+                        err = ValueError("body failed")
+                        await stack.pop().__aexit__(ValueError, err, None)
                 except asyncio.CancelledError:
                     # the script's own 'catch': delivery of a request; the request stays pending until uncancel()
                     must_deliver["v"] = False
@@ -273,12 +278,12 @@ def run_case(case) -> Outcome:
 
 def strategy(tier):
     progs = conc.program(disp_faults=True, body_raises=True).map(lambda p: {"kind": "prog", **p, "inject": None})
-    steps = st.sampled_from(["ctx_cancel", "ctx_cancel", "ext_cancel", "uncancel", "check", "check", "yield", "yield", "other", "enter", "leave"])
+    steps = st.sampled_from(["ctx_cancel", "ctx_cancel", "ext_cancel", "uncancel", "check", "check", "yield", "yield", "other", "enter", "leave", "leave_err"])
     checks = st.builds(lambda s: {"kind": "check", "script": s}, st.lists(steps, min_size=1, max_size=10))
     return st.one_of(progs, progs, checks)
 
 
-STEPS = ["ctx_cancel", "ext_cancel", "uncancel", "check", "yield", "other", "enter", "leave"]
+STEPS = ["ctx_cancel", "ext_cancel", "uncancel", "check", "yield", "other", "enter", "leave", "leave_err"]
 
 
 def enumerate_cases(tier):
